@@ -78,7 +78,12 @@ func (k *KVStore) isTableExpired(recycledAt int64) bool {
 
 func (k *KVStore) isCompactionOK(t *table.Table) bool {
 	s := t.Stats()
-	return float64(s.Garbage) >= float64(s.Allocated)*maxGarbageRatio
+	// Only the last table is written to. The unused tail of any other table is not going to be
+	// used, so its garbage is measured against what the table holds, not against its size: a
+	// table that rolled over while it was mostly empty would otherwise never reach the ratio,
+	// even with nothing but garbage in it, and never be reclaimed.
+	used := s.Inuse + s.Garbage
+	return s.Garbage > 0 && float64(s.Garbage) >= float64(used)*maxGarbageRatio
 }
 
 func (k *KVStore) Compaction() (bool, error) {
